@@ -166,6 +166,20 @@ def directed_case(ctx, i):
         track = [d.inputs[0]]
     if i % 4 == 3:
         track = 'none'
+    if i % 3 == 1:
+        # the simulated block is not the one the API calls built but a copy_block() copy of it
+        d2 = gen_designs.rebind(d, pyrtl.copy_block(d.block))
+        regmap = {d2.remap_reg[r]: v for r, v in regmap.items()}
+        memmap = {d2.remap_mem[m]: c for m, c in memmap.items() if m in d2.remap_mem}
+        if track != 'none':
+            track = [d2.block.wirevector_by_name[w.name] for w in track if w.name in d2.block.wirevector_by_name]
+            track = track or [d2.inputs[0]]
+        d = d2
+    if i % 5 == 2:
+        # Python bools are legal values wherever an int 0/1 is (numbers.Integral)
+        tb = {0: False, 1: True}
+        inputs = [{k: tb.get(v, v) if rng.random() < 0.7 else v for k, v in st.items()} for st in inputs]
+        regmap = {r: tb.get(v, v) for r, v in regmap.items()}
     return d, regmap, memmap, inputs, 0, track
 
 
